@@ -4,6 +4,7 @@ import (
 	"bytes"
 	"encoding/binary"
 	"io"
+	"time"
 
 	"github.com/apache/thrift/lib/go/thrift"
 )
@@ -205,6 +206,25 @@ func VerifC04_WireToContext() {
 	_, hasCid := wireMap[cidHeader]
 	_, respCid := resp[cidHeader]
 	verifAssert(hasCid == respCid && (!hasCid || resp[cidHeader] == "cid-x"), "the correlation id is echoed iff the wire had one")
+
+	// the same context written again after it was changed: the bytes are the encoding of the CURRENT headers
+	src := NewFContext("again").(*FContextImpl)
+	for k, v := range user {
+		src.AddRequestHeader(k, v)
+	}
+	w1 := thrift.NewTMemoryBuffer()
+	verifAssert(pf.GetProtocol(w1).WriteRequestHeader(src) == nil, "first write")
+	switch verifChoice(3) {
+	case 0:
+		src.SetTimeout(30 * time.Second)
+		verifReach("timeout-changed-between-writes")
+	case 1:
+		src.AddRequestHeader("late", "x")
+	}
+	w2 := thrift.NewTMemoryBuffer()
+	verifAssert(pf.GetProtocol(w2).WriteRequestHeader(src) == nil, "second write")
+	dec, derr := readHeader(&thrift.TMemoryBuffer{Buffer: bytes.NewBuffer(w2.Bytes())})
+	verifAssert(derr == nil && verifMapEq(dec, src.RequestHeaders()) && verifMapEq(src.RequestHeaders(), dec), "a context written a second time is encoded as it is now")
 
 	// response direction: the block is applied to a fresh context verbatim
 	target := NewFContext("mine").(*FContextImpl)
